@@ -105,7 +105,7 @@ impl InnerProductArgPC {
         proof { assert(bviews(scalars_bigint@) =~= fviews(scalars@)); broadcast use ax_add_zero; }
 //@end
 
-//@fn id=ipa.succinct_check file=poly-commit/src/ipa_pc/mod.rs scope="impl<G, D, P> InnerProductArgPC<G, D, P>" name=succinct_check props=C10,C02,C04,C11,C17
+//@fn id=ipa.succinct_check file=poly-commit/src/ipa_pc/mod.rs scope="impl<G, D, P> InnerProductArgPC<G, D, P>" name=succinct_check props=C10,C02,C03,C04,C11,C17
     #[verifier::loop_isolation(false)]
     fn succinct_check<'a>(vk: &VerifierKey, commitments: Vec<&'a LabeledCommitment<Commitment>>, point: Fr, values: Vec<Fr>, proof: &Proof, sponge: &mut Sponge) -> (res: Option<SuccinctCheckPolynomial>)
     requires
@@ -114,7 +114,7 @@ impl InnerProductArgPC {
         forall|i: int| 0 <= i < commitments@.len() ==> ((#[trigger] commitments@[i]).degree_bound is Some ==> commitments@[i].degree_bound->Some_0 <= vk.comm_key@.len() - 1),
         min(proof.l_vec@.len(), proof.r_vec@.len()) < 32,
     ensures
-        (res is Some) == ipa_relation(vk, commitments@, values@, point, proof, old(sponge).st@, min(commitments@.len(), values@.len())),   // name=ipa.succinct_check.relation props=C10,C02,C04
+        (res is Some) == ipa_relation(vk, commitments@, values@, point, proof, old(sponge).st@, min(commitments@.len(), values@.len())),   // name=ipa.succinct_check.relation props=C10,C02,C03,C04
         res is Some ==> fviews(res->Some_0.0@) == ipa_rcs(ipa_first(ipa_comb(vk, commitments@, values@, point, proof, old(sponge).st@, min(commitments@.len(), values@.len())), point@,
             ipa_acc_v(commitments@, values@, point@, (vk.comm_key@.len() - 1) as nat, old(sponge).st@, min(commitments@.len(), values@.len()))), proof.l_vec@, proof.r_vec@, min(proof.l_vec@.len(), proof.r_vec@.len())),   // name=ipa.succinct_check.check_polynomial_challenges props=C10
         final(sponge).st@ == sp_iter(old(sponge).st@, 1 + 2 * min(commitments@.len(), values@.len())),   // name=ipa.succinct_check.squeeze_schedule props=C11
